@@ -1,5 +1,7 @@
 import ActixModel.Proofs.H1Decode
 import ActixModel.Proofs.H1Conn
+import ActixModel.Proofs.H1Framing
+import ActixModel.Proofs.H1ChunkedSound
 /-
 C01 — HTTP/1 request framing is unambiguous and independent of TCP segmentation.
 
@@ -158,6 +160,94 @@ theorem C01_reject_te_http10 (h : ReqHead)
   · exact ⟨_, rfl⟩
   · simp only [this]; exact ⟨_, rfl⟩
 
+/-- **C01_reject_dup_cl**: two Content-Length headers — equal or different values, adjacent or
+not, in any position — are rejected. -/
+theorem C01_reject_dup_cl (h : ReqHead) (v1 v2 : Bytes) (pre mid post : List (Bytes × Bytes))
+    (hh : h.headers = pre ++ ((bContentLength, v1) :: (mid ++ ((bContentLength, v2) :: post)))) :
+    ∃ e, requestFraming h = .error e := by
+  obtain ⟨e, he⟩ := setHeadersLoop_dup_cl h.version v1 v2 pre mid post {}
+  exact ⟨e, requestFraming_of_loop_error h e (by rw [hh]; exact he)⟩
+
+/-- **C01_reject_bad_cl**: a Content-Length whose value is not accepted by `clValue` (not visible
+ASCII, leading `+`, empty, a non-digit, or ≥ 2^64) is rejected wherever it stands. -/
+theorem C01_reject_bad_cl (h : ReqHead) (val : Bytes) (hm : (bContentLength, val) ∈ h.headers)
+    (hbad : clValue val = none) : ∃ e, requestFraming h = .error e := by
+  obtain ⟨e, he⟩ := setHeadersLoop_bad_cl h.version val hbad h.headers {} hm
+  exact ⟨e, requestFraming_of_loop_error h e he⟩
+
+theorem parseU64Aux_digits : ∀ (t : Bytes) (acc n : Nat), t ≠ [] → parseU64Aux acc t = some n →
+    (∀ b ∈ t, 48 ≤ b.toNat ∧ b.toNat ≤ 57) ∧ n < u64Bound := by
+  intro t
+  induction t with
+  | nil => intro _ _ h; exact absurd rfl h
+  | cons b u ih =>
+    intro acc n _ h
+    simp only [parseU64Aux] at h
+    split at h
+    · rename_i hd
+      split at h
+      · rename_i hlt
+        cases u with
+        | nil =>
+          simp only [parseU64Aux, Option.some.injEq] at h
+          subst h
+          exact ⟨by intro x hx; simp at hx; subst hx; exact hd, hlt⟩
+        | cons c w =>
+          obtain ⟨h1, h2⟩ := ih _ n (by simp) h
+          refine ⟨?_, h2⟩
+          intro x hx
+          rcases List.mem_cons.mp hx with rfl | hx
+          · exact hd
+          · exact h1 x hx
+      · cases h
+    · cases h
+
+/-- **C01_cl_value_is_decimal**: what `clValue` accepts is 1*DIGIT (after OWS trimming) with a
+value below 2^64 — no sign, no hex, no list, no inner space. -/
+theorem C01_cl_value_is_decimal (v : Bytes) (n : Nat) (h : clValue v = some n) :
+    ∃ s, toStr? v = some s ∧ trimOws s ≠ [] ∧ (∀ b ∈ trimOws s, 48 ≤ b.toNat ∧ b.toNat ≤ 57) ∧
+      n < u64Bound := by
+  unfold clValue at h
+  split at h
+  · cases h
+  · rename_i s hs
+    split at h
+    · cases h
+    · unfold parseU64 at h
+      split at h
+      · cases h
+      · rename_i hne
+        obtain ⟨h1, h2⟩ := parseU64Aux_digits (trimOws s) 0 n (by intro h0; exact hne h0) h
+        exact ⟨s, hs, by intro h0; exact hne h0, h1, h2⟩
+
+example : clValue [32, 52, 50, 9] = some 42 ∧ clValue [43, 52] = none ∧ clValue [52, 44, 52] = none ∧
+    clValue [] = none ∧ clValue [48, 120, 52] = none := by decide
+
+/-- **C01_reject_dup_te**: two Transfer-Encoding headers are rejected (HTTP/1.0 and 1.1). -/
+theorem C01_reject_dup_te (h : ReqHead) (v1 v2 : Bytes) (pre mid post : List (Bytes × Bytes))
+    (hv : h.version ≤ 1)
+    (hh : h.headers = pre ++ ((bTransferEncoding, v1) :: (mid ++ ((bTransferEncoding, v2) :: post)))) :
+    ∃ e, requestFraming h = .error e :=
+  requestFraming_dup_te h v1 v2 pre mid post hv hh
+
+/-- **C01_reject_te_not_chunked**: a Transfer-Encoding header whose value is not exactly
+`chunked` (up to case and OWS) — `gzip`, `gzip, chunked`, `chunked, gzip`, `identity`,
+`xchunked`, obs-text — is rejected. -/
+theorem C01_reject_te_not_chunked (h : ReqHead) (val : Bytes) (hv : h.version ≤ 1)
+    (hm : (bTransferEncoding, val) ∈ h.headers) (hbad : teIsChunked val = false) :
+    ∃ e, requestFraming h = .error e :=
+  requestFraming_te_not_chunked h val hv hm hbad
+
+example : teIsChunked [67, 104, 117, 110, 107, 101, 100, 32] = true ∧ teIsChunked bIdentity = false ∧
+    teIsChunked (bChunked ++ [44] ++ bChunked) = false ∧ teIsChunked (120 :: bChunked) = false := by decide
+
+/-- **C01_reject_post10_without_length**: an HTTP/1.0 POST with neither Content-Length nor an
+upgrade is rejected (RFC 1945 §7.2.2; no read-to-close request bodies). -/
+theorem C01_reject_post10_without_length (h : ReqHead) (hv : h.version = 0) (hm : h.method = bPOST)
+    (hcl : hasHeader bContentLength h.headers = false) (hup : hasHeader bUpgrade h.headers = false) :
+    ∃ e, requestFraming h = .error e :=
+  requestFraming_post10 h hv hm hcl hup
+
 /-- **C01_cl_zero_is_no_body**: `Content-Length: 0` is normalised to "no body" (so that a
 zero-length decoder can never swallow the next request's first byte). -/
 theorem C01_cl_zero_is_no_body (m : Bytes) :
@@ -214,6 +304,77 @@ theorem C01_chunk_size_bounded (st st' : ChunkedState) (sz sz' : Nat) (src rest 
         | cons b t => simp only at h; (repeat' split at h) <;> first | (cases h; exact hsz) | cases h)
     | ((repeat' split at h) <;> cases h <;> omega)
     | (cases h; exact hsz)
+
+/-! ## chunked bodies: round trip and soundness against the grammar -/
+
+theorem feed_init_flat (rest : Bytes) :
+    flat (feed {} rest).1 = (runSt (.head [] .lead0) rest).2 ∧
+    (feed {} rest).2 = limitCheck (conc (runSt (.head [] .lead0) rest).1) :=
+  feed_conc (.head [] .lead0) rest (by simp [StOk])
+
+/-- **C01_roundtrip_chunked.**  For every list of valid wire chunks (any hex spelling of the size,
+BWS, extensions, any data), a valid last-chunk and any following bytes: the decoder delivers
+exactly the chunks' data, then `Eof`, and goes on with the following bytes as a fresh head —
+and (by `C01_body_segmentation`) does so under every segmentation. -/
+theorem C01_roundtrip_chunked (cs : List WChunk) (l : WLast) (rest : Bytes)
+    (hcs : ∀ c ∈ cs, c.Valid) (hl : l.Valid) :
+    flat (feed { payload := some (.chunked .size 0) } (wireChunked cs l ++ rest)).1 =
+      ((cs.map (·.data)).flatten).map Ev.byte ++ [.eof] ++ flat (feed {} rest).1 ∧
+    (feed { payload := some (.chunked .size 0) } (wireChunked cs l ++ rest)).2 = (feed {} rest).2 := by
+  have hN : Normal (.chunked .size 0) := ⟨by simp, by simp⟩
+  obtain ⟨h1, h2⟩ := feed_conc (.body (.chunked .size 0)) (wireChunked cs l ++ rest) hN
+  obtain ⟨r1, r2⟩ := feed_init_flat rest
+  have hw := run_wireChunked cs l hcs hl
+  have e : conc (.body (.chunked .size 0)) = { payload := some (.chunked .size 0) } := rfl
+  rw [e] at h1 h2
+  rw [h1, h2, runSt_append, hw, r1, r2]
+  simp
+
+/-- **C01_roundtrip_length.**  A fixed-length body of `n > 0` bytes is delivered exactly, then
+`Eof`, and the following bytes start a fresh head. -/
+theorem C01_roundtrip_length (body rest : Bytes) (hb : body ≠ []) :
+    flat (feed { payload := some (.length body.length) } (body ++ rest)).1 =
+      body.map Ev.byte ++ [.eof] ++ flat (feed {} rest).1 ∧
+    (feed { payload := some (.length body.length) } (body ++ rest)).2 = (feed {} rest).2 := by
+  have hpos : 0 < body.length := List.length_pos_iff.mpr hb
+  obtain ⟨h1, h2⟩ := feed_conc (.body (.length body.length)) (body ++ rest) hpos
+  obtain ⟨r1, r2⟩ := feed_init_flat rest
+  have hw := runSt_length body body.length hb (Nat.le_refl _)
+  have e : conc (.body (.length body.length)) = { payload := some (.length body.length) } := rfl
+  rw [e] at h1 h2
+  rw [h1, h2, runSt_append, hw, r1, r2]
+  simp [norm]
+
+/-- **C01_sound_chunked_strict** (the full strict statement; false before the F12 fix).
+Whenever the decoder reports the end of a chunked body, the bytes it consumed are the wire form
+of valid chunks — every chunk-size is 1*HEXDIG, then optional BWS, optional extension, CRLF,
+exactly `size` data bytes, CRLF; a last chunk of size 0 directly followed by CRLF — the data it
+delivered are exactly those chunks' data, and decoding goes on right after that CRLF. -/
+theorem C01_sound_chunked_strict (bs : Bytes)
+    (h : Ev.eof ∈ flat (feed { payload := some (.chunked .size 0) } bs).1) :
+    ∃ (cs : List WChunk) (l : WLast) (rest : Bytes), (∀ c ∈ cs, c.Valid) ∧ l.Valid ∧
+      bs = wireChunked cs l ++ rest ∧
+      flat (feed { payload := some (.chunked .size 0) } bs).1 =
+        ((cs.map (·.data)).flatten).map Ev.byte ++ [.eof] ++ flat (feed {} rest).1 := by
+  have hN : NormalC .size 0 := ⟨by simp, by simp⟩
+  obtain ⟨h1, _⟩ := feed_conc (.body (.chunked .size 0)) bs hN
+  have e : conc (.body (.chunked .size 0)) = { payload := some (.chunked .size 0) } := rfl
+  rw [e] at h1
+  rw [h1] at h
+  cases hr : runToEnd .size 0 bs with
+  | none => exact absurd h (runToEnd_none bs .size 0 hN hr)
+  | some p =>
+    obtain ⟨data, rest⟩ := p
+    obtain ⟨cs, l, hcs, hl, hbs, hdata⟩ := runToEnd_sound bs.length bs data rest (Nat.le_refl _) hr
+    refine ⟨cs, l, rest, hcs, hl, hbs, ?_⟩
+    have := (C01_roundtrip_chunked cs l rest hcs hl).1
+    rw [← hbs] at this
+    exact this
+
+/-- regression witness for DESIGN §6 F12: `CRLF CRLF` as a chunked body is now an error -/
+theorem witness_empty_chunk_size_rejected :
+    (feed { payload := some (.chunked .size 0) } [13, 10, 13, 10]).2.dead = some (.chunk .invalidSize) := by
+  decide
 
 /-! ## nothing after a reject (connection level) -/
 
